@@ -586,6 +586,16 @@ fn s_keys() -> Result<(), String> {
         }
         Ok(all)
     }
+    fn invariant_at(p: &mut Package<Medium>, t: &str, key: usize, what: &str) -> Result<Vec<Vec<Value>>, String> {
+        let rows = p.select_rows(Select::table(t)).map_err(|e| format!("select failed: {}", e))?;
+        let all: Vec<Vec<Value>> = rows.map(|r| (0..r.len()).map(|i| r[i].clone()).collect()).collect();
+        for w in all.windows(2) {
+            if w[0][key] >= w[1][key] {
+                return Err(format!("{}: table {} holds rows with keys {:?} then {:?} (not strictly ascending)", what, t, w[0][key], w[1][key]));
+            }
+        }
+        Ok(all)
+    }
     let m = Medium::new();
     let mut p = Package::create(PackageType::Installer, m.clone()).map_err(|e| e.to_string())?;
     p.create_table("T", cols()).map_err(|e| e.to_string())?;
@@ -678,17 +688,27 @@ fn s_keys() -> Result<(), String> {
     // composite key: order changes without collision
     p.update_rows(Update::table("C").set("A", Value::from("z")).with(Expr::col("V").eq(Expr::integer(100)))).map_err(|e| format!("moving a composite key failed: {}", e))?;
     invariant(&mut p, "C", 2, "after UPDATE C SET A = 'z' WHERE V = 100")?;
-    // a table whose primary-key column is not the leading column
-    fn invariant_at(p: &mut Package<Medium>, t: &str, key: usize, what: &str) -> Result<Vec<Vec<Value>>, String> {
-        let rows = p.select_rows(Select::table(t)).map_err(|e| format!("select failed: {}", e))?;
-        let all: Vec<Vec<Value>> = rows.map(|r| (0..r.len()).map(|i| r[i].clone()).collect()).collect();
-        for w in all.windows(2) {
-            if w[0][key] >= w[1][key] {
-                return Err(format!("{}: table {} holds rows with keys {:?} then {:?} (not strictly ascending)", what, t, w[0][key], w[1][key]));
+    // the empty string is the null value: refused where null is, and one key with it
+    p.create_table("E1", vec![Column::build("K").primary_key().string(0), Column::build("V").nullable().int16()]).map_err(|e| e.to_string())?;
+    p.create_table("E2", vec![Column::build("K").primary_key().nullable().string(0), Column::build("V").nullable().string(0)]).map_err(|e| e.to_string())?;
+    let _ = p.insert_rows(Insert::into("E1").row(vec![Value::from(""), Value::Int(1)]));
+    let _ = p.insert_rows(Insert::into("E1").row(vec![Value::from(""), Value::Int(2)]));
+    let _ = p.insert_rows(Insert::into("E2").row(vec![Value::Null, Value::from("x")]));
+    let _ = p.insert_rows(Insert::into("E2").row(vec![Value::from(""), Value::from("y")]));
+    let _ = p.insert_rows(Insert::into("E2").row(vec![Value::from("k"), Value::from("")]));
+    let _ = p.update_rows(Update::table("E2").set("K", Value::from("")).with(Expr::col("K").eq(Expr::string("k"))));
+    for t in ["E1", "E2"] {
+        let rows = invariant_at(&mut p, t, 0, "after inserting empty strings and nulls")?;
+        let cols: Vec<Column> = p.get_table(t).ok_or("table missing")?.columns().to_vec();
+        for r in rows.iter() {
+            for (c, v) in cols.iter().zip(r.iter()) {
+                if !c.is_valid_value(v) {
+                    return Err(format!("table {} stores {:?} in column {:?}, which does not admit it", t, v, c.name()));
+                }
             }
         }
-        Ok(all)
     }
+    // a table whose primary-key column is not the leading column
     p.create_table("N", vec![Column::build("Label").nullable().string(0), Column::build("Id").primary_key().int32()]).map_err(|e| e.to_string())?;
     p.insert_rows(Insert::into("N").rows(vec![
         vec![Value::from("c"), Value::Int(1)],
